@@ -714,3 +714,43 @@ Qed.
 (* what the application does with its registry never produces output by itself *)
 Theorem app_event_silent : forall g sty pre a, outs_of g sty pre (EvApp a) = [].
 Proof. reflexivity. Qed.
+
+(* ------------------------------------------------------------------ the proxy's side of the handshake *)
+(* what the proxy makes of the daemon's answer does not depend on the serializer the proxy is configured with, nor
+   on the one the daemon chose for the answer: it is a function of the answer alone *)
+Theorem client_outcome_of_answer : forall g, cfg_ok g = true -> forall cs k s i,
+  client_reads g cs (Some (k, s, i)) =
+  match k with RConnectOk => CConnected | RConnectFail r => CRejected r | _ => CProtocol end.
+Proof.
+  intros g OK cs k s i. apply cfg_ok_facts in OK. unfold client_reads. rewrite (cf_client g OK).
+  destruct k; try reflexivity; rewrite N.eqb_refl; reflexivity.
+Qed.
+
+(* end to end: a proxy whose CONNECT is refused (for whatever reason, answered through whatever serializer) raises the
+   rejection carrying the very reason the daemon put into its CONNECTFAIL *)
+Theorem proxy_learns_reason : forall g sty, cfg_ok g = true ->
+  q_silent_unknown_ser g = false -> q_silent_validator_cce g = false ->
+  forall pre ce c m, e_conn ce = c -> fresh g sty pre c -> e_in ce = InMsg m ->
+  is_accepted_connect g sty (reg_after g sty pre) ce = false -> validator_aborts g sty ce = false ->
+  exists r s i, outs_of g sty pre (EvConn ce) = [Reply c (RConnectFail r) s i; SockClosed c] /\
+    client_reads g (m_ser m) (answer_of c (outs_of g sty pre (EvConn ce))) = CRejected r.
+Proof.
+  intros g sty OK Q1 Q2 pre ce c m C Fr I A V.
+  assert (PG : peer_gone ce = false). { unfold peer_gone. rewrite I. reflexivity. }
+  destruct (failed_handshake_always_answered g sty OK Q1 Q2 pre ce c C Fr A PG V) as (r & s & i & O).
+  exists r, s, i. split; [exact O|]. rewrite O. cbn. rewrite Nat.eqb_refl.
+  apply (client_outcome_of_answer g OK).
+Qed.
+
+(* ... and when it is accepted, the proxy is connected *)
+Theorem proxy_connected_iff_accepted : forall g sty, cfg_ok g = true ->
+  forall pre ce c m, e_conn ce = c -> fresh g sty pre c -> e_in ce = InMsg m ->
+  is_accepted_connect g sty (reg_after g sty pre) ce = true ->
+  client_reads g (m_ser m) (answer_of c (outs_of g sty pre (EvConn ce))) = CConnected.
+Proof.
+  intros g sty OK pre ce c m C Fr I A. pose proof (cfg_ok_facts g OK) as F. subst c.
+  destruct (first_outs g sty pre ce Fr) as [O _]. rewrite O.
+  destruct (step_first_cases g sty (reg_after g sty pre) ce F)
+    as [(_ & _ & m0 & I0 & X)|[(A' & _)|(A' & _)]]; try (rewrite A in A'; discriminate).
+  rewrite X. cbn. rewrite Nat.eqb_refl. apply (client_outcome_of_answer g OK).
+Qed.
